@@ -246,7 +246,10 @@ def read(m, nvar):
 
 
 def configs(md):
-    """(flat, linear, split, plan descriptor, n variants, param index, guess index)"""
+    """(flat, linear, split, plan descriptor, n variants, param index, guess index[, history])
+    history "reused": the same model object was already solved once - with the same, then still empty, plan object
+    and deliberately loose solver settings (a rough first pass) - before the plan is filled in and the model is
+    solved again with default settings; the second solve is the one that is judged"""
     out = []
     plans = [("none",)] + [("fix_level", v) for v in md["vars"]]
     for flat in md["flat_ok"]:
@@ -264,6 +267,8 @@ def configs(md):
                     for pi in range(len(md["params"])):
                         for gi in range(len(md["guesses"])):
                             out.append((flat, linear, split, plan, 1, pi, gi))
+                        if not linear and plan[0] != "none":
+                            out.append((flat, linear, split, plan, 1, pi, 0, "reused"))
                     if plan[0] == "none" and len(md["params"]) > 1:
                         out.append((flat, linear, split, plan, 3, 0, 0))
                     if plan[0] == "none" and len(md["params"]) > 2:
@@ -272,9 +277,10 @@ def configs(md):
 
 
 def check_config(md, cfg, res, ctx, cache):
-    flat, linear, split, plan_desc, nvar, pi, gi = cfg
+    flat, linear, split, plan_desc, nvar, pi, gi = cfg[:7]
+    history = cfg[7] if len(cfg) > 7 else "fresh"
     name = md["name"]
-    case = {"model": name, "config": [flat, linear, split, list(plan_desc), nvar, pi, gi]}
+    case = {"model": name, "config": [flat, linear, split, list(plan_desc), nvar, pi, gi] + ([history] if history != "fresh" else [])}
 
     def bad(check, detail, **extra):
         sig = {"model": name, "flat": flat, "linear": linear, "split": split, "plan": plan_desc[0], "variants": nvar}
@@ -293,6 +299,13 @@ def check_config(md, cfg, res, ctx, cache):
     assigned = {}
     if plan_desc[0] != "none":
         plan = ir.SteadyPlan(m)
+        if history == "reused":
+            try:
+                with contextlib.redirect_stdout(io.StringIO()):
+                    m.steady(plan=plan, solver_settings={"func_tolerance": 1e-3}, **({"split_into_blocks": split} if split is not None else {}))
+                res.count("rough_first_pass_completed")
+            except Exception:
+                res.count("rough_first_pass_not_completed")
         v = plan_desc[1]
         if plan_desc[0] == "fix_level":
             val = 1.7 if v in md["log"] else 0.9
@@ -473,7 +486,7 @@ def run(ctx, total, info):
     engine.run_shards(__name__, "shard", shards, ctx, total)
     c = total.counters
     info["exhaustive"] = True
-    info["floors"] = {"solved": (c.get("solved", 0), 250), "multi_block_structures": (len(total.classes.get("num_blocks", ())), 5)}
+    info["floors"] = {"solved": (c.get("solved", 0), 250), "rough_first_pass_completed": (c.get("rough_first_pass_completed", 0), 40), "multi_block_structures": (len(total.classes.get("num_blocks", ())), 5)}
     for md in models(ctx.tier):
         info["floors"]["solved_" + md["name"]] = (c.get("solved_" + md["name"], 0), 6)
 
@@ -482,7 +495,7 @@ def replay(case):
     res = engine.Result()
     md = [x for x in models("thorough") if x["name"] == case["model"]][0]     # superset: indices of quick cases are unchanged
     cfg = case["config"]
-    want = (cfg[0], cfg[1], cfg[2], tuple(cfg[3]), cfg[4], cfg[5], cfg[6])
+    want = (cfg[0], cfg[1], cfg[2], tuple(cfg[3]), cfg[4], cfg[5], cfg[6]) + tuple(cfg[7:8])
     ctx = engine.Ctx("quick", 0)
     cache = prime_cache(md, want[0], want[5], ctx)
     check_config(md, want, res, ctx, cache)
